@@ -156,16 +156,52 @@ func (o *OracleC09) AtEnd(s *Sim) {
 				if m.d.ViewNumber > maxView {
 					maxView = m.d.ViewNumber
 				}
-				if (m.d.CommitSent() || m.d.PreCommitSent()) && m.d.ViewNumber < lockView {
-					lockView = m.d.ViewNumber
+				if lv, ok := ownLockView(m); ok && lv < lockView {
+					lockView = lv
 				}
 			}
-			if len(props) >= 2 && locked {
+			// Who could still move things on?  "free": not locked by an own (pre)commit.
+			// "willing": free and - by the documented rule, recomputed here from the node's
+			// tables, not taken from the library's counters - counting at most F validators as
+			// committed or lost, so that its timeout produces a change-view request and not a
+			// recovery request.  "at the top": in the highest view, free or locked to that view.
+			free, willing, atTop, mQ := 0, 0, 0, 0
+			primAtTop := false
+			for _, m := range o.live() {
+				if m.d == nil || m.d.BlockIndex != minH {
+					continue
+				}
+				mQ = m.d.M()
+				lv, isLocked := ownLockView(m)
+				if !isLocked {
+					free++
+					nc, nf := 0, 0
+					for i := range m.d.Validators {
+						if m.d.CommitPayloads[i] != nil || m.d.PreCommitPayloads[i] != nil {
+							nc++
+						} else if ls := m.d.LastSeenMessage[i]; ls == nil || ls.Height < m.d.BlockIndex || ls.View < m.d.ViewNumber {
+							nf++
+						}
+					}
+					if nc+nf <= m.d.F() {
+						willing++
+					}
+				}
+				if m.d.ViewNumber == maxView && (!isLocked || lv == maxView) {
+					atTop++
+					if m.d.IsPrimary() {
+						primAtTop = true
+					}
+				}
+			}
+			if len(props) >= 2 && locked && free < mQ {
 				class = "stall_commit_lock_with_split_proposals"
-			} else if locked && lockView < maxView {
+			} else if locked && lockView < maxView && willing < mQ && (!primAtTop || atTop < mQ) {
 				// Known protocol-level lock of dBFT 2.0 (neo-modules issue 792, discussed in
 				// the repository's formal-models/README): some validators are (pre)commit-
-				// locked in a lower view while the others have moved to a higher one.
+				// locked in a lower view while the others have moved to a higher one; fewer
+				// than M validators are willing to ask for the next view, and the highest
+				// view cannot complete (its primary is not there, or fewer than M are).
 				class = "stall_commit_lock_across_views"
 			} else if locked && o.crashLock(minH) {
 				// Known protocol-level lock of dBFT 2.0: some validators committed in view v, a
@@ -213,4 +249,20 @@ func (o *OracleC09) crashLock(h uint32) bool {
 		}
 	}
 	return free > 0 && free < o.live()[0].d.M()
+}
+
+// ownLockView: the view of the node's own (pre)commit, i.e. the view it is locked to (a
+// restarted validator that got its earlier vote back is locked to that vote's view, whatever
+// view it is in now).
+func ownLockView(m *Node) (byte, bool) {
+	if m.d == nil || m.d.MyIndex < 0 {
+		return 0, false
+	}
+	if p := m.d.CommitPayloads[m.d.MyIndex]; p != nil {
+		return p.ViewNumber(), true
+	}
+	if p := m.d.PreCommitPayloads[m.d.MyIndex]; p != nil {
+		return p.ViewNumber(), true
+	}
+	return 0, false
 }
